@@ -380,6 +380,19 @@ MUTANTS = [
            [('regex', r"dct\.get\('dtype'\)", "None")], r'C17\.c:json_numpy_or_set_obj_hook:_is_numpy_array'),
     Mutant('json-only-on-save', RES, 'SimulationResults.load_from_file',
            [('regex', r",\s*'\.json': SimulationResults\._load_from_json_file", '')], r'C17\.d:.*keys'),
+    Mutant('revert-fix-73dda6d-int-family', SER, 'NumpyOrSetEncoder.default',
+           [('replace', 'isinstance(obj, np.integer)', 'isinstance(obj, (np.int32, np.int64))')], r'C17\.c:NumpyOrSetEncoder\.default:family:int'),
+    Mutant('revert-fix-73dda6d-fall-through', SER, 'NumpyOrSetEncoder.default',
+           [('replace', 'return super().default(obj)', 'return json.JSONEncoder(self, obj)')], r'C17\.c:NumpyOrSetEncoder\.default:fall-through'),
+    Mutant('revert-fix-73dda6d-decoder-shape', SER, 'json_numpy_or_set_obj_hook',
+           [('regex', r"shape = dct\.get\('shape'\)", 'shape = None')], r'C17\.c:json_numpy_or_set_obj_hook:_is_numpy_array'),
+    Mutant('revert-fix-508e8d2-choice-branch', RES, 'Result._from_dict',
+           [('regex', r"\n    r\._total = d\['total'\]\n    r\._value_list = d\['value_list'\]\n    r\._total_list = d\['total_list'\]\n    r\.num_updates = d\['num_updates'\]\n    r\._result_sum = d\['result_sum'\]\n    r\._result_squared_sum = d\['result_squared_sum'\]", ''),
+            ('regex', r"(accumulate_values=d\['accumulate_values_bool'\]\))\n    return r",
+             r"\1\n        r._value_list = d['value_list']\n        r._total_list = d['total_list']\n        r.num_updates = d['num_updates']\n        r._result_sum = d['result_sum']\n        r._result_squared_sum = d['result_squared_sum']\n    return r")],
+           r'C17\.a:Result\._from_dict:(value_list|num_updates)'),
+    Mutant('revert-fix-572c2a9-current_rep', RES, 'SimulationResults._to_dict',
+           [('regex', r"'current_rep': self\.current_rep,\s*", '')], r'C17\.[ab]:SimulationResults'),
     Mutant('benign-reorder-isinstance-branches', SER, 'NumpyOrSetEncoder.default',
            [('regex', r"(    if isinstance\(obj, np\.ndarray\).*?)(    if isinstance\(obj, set\):\n        return [^\n]*\n)", r'\2\1')],
            None, benign=True),
